@@ -6,7 +6,12 @@
    operands refer to earlier instructions (any reuse).  Result: per output number, constant-ness,
    tape index, d/dx_i for every variable and the complete derivative vector; tape index of every
    variable.  The harness runs each program through all ownership forms and the other operand kind
-   (six runs) and demands identical observations."""
+   (six runs) and demands identical observations.  A program with a Sum instruction is run 15 more
+   times: the summed records reach `impl Sum for Record` through iterators of every other SHAPE
+   (harness/src/c04/prog.rs `sum_shaped`: filter / from_fn / chain / flat_map / take_while / boxed
+   dyn / by &mut -- unknown lower bound --, an iterator that is not fused, and custom iterators whose
+   size_hint lies small or large); the model sums the LIST of items, so every shape must give its
+   answer (round-4 seed C05-v1 trusted a lower bound of 0).  The float oracle does the same."""
 import itertools, random
 from fractions import Fraction
 from tools.vlib import sx, parse_sx
